@@ -17,7 +17,7 @@ use std::sync::Arc;
 use std::time::{Duration, Instant};
 
 use base64::Engine;
-use kharness::config::{test_config, Opts};
+use kharness::config::{load_config_text, try_test_config, Opts, PreProcess};
 use kharness::{Args, Rng, Scratch};
 use krill::commons::storage::StorageUri;
 use krill::config::{AuthType, HttpsMode};
@@ -498,6 +498,52 @@ struct CaseCfg {
     roles: Vec<RoleDef>,
     users: Vec<UserDef>,
     unix: Vec<(String, String)>,
+    /// the configuration has no `[auth_roles]` section (krill's default: the built-in roles); `roles` is empty
+    roles_builtin: bool,
+    /// the configuration has no `[unix_users]` section (krill's default: root = "admin"); `unix` is empty
+    unix_default: bool,
+    /// the configuration has no `[auth_users]` section
+    users_none: bool,
+    /// the configuration is written out as the text of a configuration file and loaded with krill's own
+    /// loader (`Config::read_config` + `Config::process`); otherwise the fields are set on a `Config` value
+    /// before `Config::process` runs (roles that the file format cannot express)
+    toml: bool,
+}
+
+/// The configuration-file form `{ permissions = [..], cas = [..] }` of a role, if it has one.
+fn role_conf(r: &RoleDef) -> Option<serde_json::Value> {
+    // a role whose blanket set is empty and whose entries all equal the general set is what the
+    // configuration file form `{ permissions, cas }` produces
+    let conf_form = !r.res.is_empty() && r.any.is_empty() && r.res.iter().all(|(_, p)| *p == r.none);
+    if conf_form || (r.res.is_empty() && r.any == r.none) {
+        let texts: Vec<String> = r.none.iter().map(|p| perm(p).to_string()).collect();
+        let mut v = serde_json::json!({ "permissions": texts });
+        if conf_form {
+            v["cas"] = serde_json::json!(r.res.iter().map(|(h, _)| h.clone()).collect::<Vec<_>>());
+        }
+        Some(v)
+    } else {
+        None
+    }
+}
+
+/// krill's built-in roles as role definitions (for the harness's own book-keeping only).
+fn builtin_role_defs() -> Vec<RoleDef> {
+    let h = rpki::ca::idexchange::MyHandle::from_str("any-ca").expect("handle");
+    [("admin", Role::admin()), ("readwrite", Role::readwrite()), ("readonly", Role::readonly())]
+        .into_iter()
+        .map(|(n, r)| RoleDef {
+            name: n.into(),
+            none: all_perms().into_iter().filter(|(_, p)| r.is_allowed(*p, None)).map(|x| x.0).collect(),
+            any: all_perms().into_iter().filter(|(_, p)| r.is_allowed(*p, Some(&h))).map(|x| x.0).collect(),
+            res: Vec::new(),
+        })
+        .collect()
+}
+
+/// A TOML basic string (the JSON escapes are TOML escapes).
+fn tq(s: &str) -> String {
+    serde_json::to_string(s).expect("string")
 }
 
 fn perms_str(l: &[String], sep: &str) -> String {
@@ -507,11 +553,15 @@ fn perms_str(l: &[String], sep: &str) -> String {
 impl CaseCfg {
     fn lines(&self) -> Vec<String> {
         let mut out = vec![format!(
-            "cfg auth={} admin={} testbed={} key={}",
+            "cfg auth={} admin={} testbed={} key={}{}{}{}{}",
             if self.admin_only { "admintoken" } else { "configfile" },
             hexs(&self.admin),
             self.testbed as u8,
-            self.key
+            self.key,
+            if self.roles_builtin { " roles=builtin" } else { "" },
+            if self.unix_default { " unix=default" } else { "" },
+            if self.users_none { " users=none" } else { "" },
+            if self.toml { " load=toml" } else { "" },
         )];
         for r in &self.roles {
             let res = if r.res.is_empty() {
@@ -548,6 +598,10 @@ impl CaseCfg {
                 self.admin = unhex(kv(&w, "admin").unwrap_or("-"));
                 self.testbed = kv(&w, "testbed") == Some("1");
                 self.key = kv(&w, "key").and_then(|k| k.parse().ok()).unwrap_or(0);
+                self.roles_builtin = kv(&w, "roles") == Some("builtin");
+                self.unix_default = kv(&w, "unix") == Some("default");
+                self.users_none = kv(&w, "users") == Some("none");
+                self.toml = kv(&w, "load") == Some("toml");
                 true
             }
             Some("role") => {
@@ -609,26 +663,82 @@ fn free_port() -> u16 {
 
 impl Instance {
     fn start(cfg: &CaseCfg, tcp: bool, tag: &str) -> Instance {
-        let scratch = Scratch::new(&format!("http-{tag}"));
-        let sock = scratch.path().join("k.sock");
-        let storage = StorageUri::from_str(&format!(
-            "memory://http{}x{}x{}",
-            std::process::id(),
-            tag,
-            std::time::SystemTime::now().duration_since(std::time::UNIX_EPOCH).unwrap().as_nanos()
-        ))
-        .unwrap();
-        for attempt in 0..5 {
-            let port = if tcp { free_port() } else { 0 };
-            let mut config = test_config(storage.clone(), scratch.path(), &Opts { port, testbed: cfg.testbed, ..Default::default() });
+        Instance::try_start(cfg, tcp, tag).unwrap_or_else(|e| panic!("could not start the krill daemon: {e}"))
+    }
+
+    /// The text of the configuration file of a case.
+    fn config_text(cfg: &CaseCfg, storage: &StorageUri, dir: &Path, sock: &Path, port: u16) -> String {
+        let mut t = String::new();
+        let p = |x: &Path| tq(&x.display().to_string());
+        t.push_str(&format!("storage_uri = {}\n", tq(&storage.to_string())));
+        t.push_str(&format!("port = {port}\nhttps_mode = \"disable\"\n"));
+        t.push_str(&format!("unix_socket_enabled = true\nunix_socket = {}\n", p(sock)));
+        t.push_str(&format!("tls_keys_dir = {}\nrepo_dir = {}\npid_file = {}\n", p(&dir.join("ssl")), p(&dir.join("repo")), p(&dir.join("krill.pid"))));
+        t.push_str("log_level = \"off\"\nlog_type = \"stderr\"\nbgp_riswhois_enabled = false\n");
+        t.push_str(&format!("admin_token = {}\n", tq(&cfg.admin)));
+        t.push_str(&format!("auth_type = {}\n", if cfg.admin_only { "\"admin-token\"" } else { "\"config-file\"" }));
+        if cfg.testbed {
+            t.push_str(&format!(
+                "\n[testbed]\nta_aia = \"rsync://localhost/ta/ta.cer\"\nta_uri = \"https://localhost:{port}/ta/ta.cer\"\nrrdp_base_uri = \"https://localhost:{port}/rrdp/\"\nrsync_jail = \"rsync://localhost/repo/\"\n"
+            ));
+        }
+        if !cfg.users_none {
+            t.push_str("\n[auth_users]\n");
+            for u in &cfg.users {
+                t.push_str(&format!(
+                    "{} = {{ password_hash = {}, salt = {}, role = {} }}\n",
+                    tq(&u.name), tq(&stored_hash(u)), tq(&hex::encode(salt_bytes(u.salt))), tq(&u.role)
+                ));
+            }
+        }
+        if !cfg.roles_builtin {
+            t.push_str("\n[auth_roles]\n");
+            for r in &cfg.roles {
+                let v = role_conf(r).unwrap_or_else(|| panic!("role {} has no configuration file form", r.name));
+                let list = |x: &serde_json::Value| x.as_array().map(|a| a.iter().map(|e| tq(e.as_str().unwrap())).collect::<Vec<_>>().join(", ")).unwrap_or_default();
+                let mut e = format!("{} = {{ permissions = [{}]", tq(&r.name), list(&v["permissions"]));
+                if !v["cas"].is_null() {
+                    e.push_str(&format!(", cas = [{}]", list(&v["cas"])));
+                }
+                e.push_str(" }\n");
+                t.push_str(&e);
+            }
+        }
+        if !cfg.unix_default {
+            t.push_str("\n[unix_users]\n");
+            for (u, r) in &cfg.unix {
+                t.push_str(&format!("{} = {}\n", tq(u), tq(r)));
+            }
+        }
+        t
+    }
+
+    /// The processed configuration of a case: either the text of a configuration file loaded by krill's own
+    /// loader, or a `Config` value whose authentication-relevant fields are set BEFORE `Config::process`
+    /// runs (fix / verify / resolve see them as they see the content of a file).
+    fn build_config(cfg: &CaseCfg, storage: &StorageUri, dir: &Path, sock: &Path, port: u16) -> Result<krill::config::Config, String> {
+        if cfg.toml {
+            if cfg.testbed {
+                krill::constants::enable_test_mode();
+                krill::constants::enable_test_announcements();
+            }
+            let text = Instance::config_text(cfg, storage, dir, sock, port);
+            if std::env::var("KHTTP_TOML").is_ok() {
+                eprintln!("{text}");
+            }
+            return load_config_text(&text, &dir.join("krill.conf"));
+        }
+        let c = cfg.clone();
+        let sock = sock.to_path_buf();
+        let pre = PreProcess::new(move |config: &mut krill::config::Config| {
             config.https_mode = HttpsMode::Disable;
             config.unix_socket_enabled = true;
             config.unix_socket = Some(sock.clone());
-            config.unix_users = cfg.unix.iter().cloned().collect();
-            config.admin_token = cfg.admin.as_str().into();
-            config.auth_type = if cfg.admin_only { AuthType::AdminToken } else { AuthType::ConfigFile };
+            config.unix_users = if c.unix_default { krill::config::ConfigDefaults::unix_users() } else { c.unix.iter().cloned().collect() };
+            config.admin_token = c.admin.as_str().into();
+            config.auth_type = if c.admin_only { AuthType::AdminToken } else { AuthType::ConfigFile };
             let mut users = serde_json::Map::new();
-            for u in &cfg.users {
+            for u in &c.users {
                 users.insert(
                     u.name.clone(),
                     serde_json::json!({
@@ -638,44 +748,66 @@ impl Instance {
                     }),
                 );
             }
-            config.auth_users = Some(serde_json::from_value(serde_json::Value::Object(users)).expect("auth_users"));
-            let mut roles = RoleMap::new();
-            for r in &cfg.roles {
-                // a role whose blanket set is empty and whose entries all equal the general set is what
-                // the configuration file form `{ permissions, cas }` produces: build it that way
-                let conf_form = !r.res.is_empty() && r.any.is_empty() && r.res.iter().all(|(_, p)| *p == r.none);
-                let role: Role = if conf_form || (r.res.is_empty() && r.any == r.none) {
-                    let texts: Vec<String> = r.none.iter().map(|p| perm(p).to_string()).collect();
-                    let mut v = serde_json::json!({ "permissions": texts });
-                    if conf_form {
-                        v["cas"] = serde_json::json!(r.res.iter().map(|(h, _)| h.clone()).collect::<Vec<_>>());
-                    }
-                    serde_json::from_value(v).expect("role conf")
-                } else {
-                    Role::complex(
-                        pset(&r.none),
-                        pset(&r.any),
-                        r.res.iter().map(|(h, p)| (rpki::ca::idexchange::MyHandle::from_str(h).expect("handle"), pset(p))).collect(),
-                    )
-                };
-                roles.add(r.name.clone(), role);
+            config.auth_users = if c.users_none { None } else { Some(serde_json::from_value(serde_json::Value::Object(users)).expect("auth_users")) };
+            if !c.roles_builtin {
+                let mut roles = RoleMap::new();
+                for r in &c.roles {
+                    let role: Role = match role_conf(r) {
+                        Some(v) => serde_json::from_value(v).expect("role conf"),
+                        None => Role::complex(
+                            pset(&r.none),
+                            pset(&r.any),
+                            r.res.iter().map(|(h, p)| (rpki::ca::idexchange::MyHandle::from_str(h).expect("handle"), pset(p))).collect(),
+                        ),
+                    };
+                    roles.add(r.name.clone(), role);
+                }
+                config.auth_roles = Arc::new(roles);
+            } else {
+                config.auth_roles = krill::config::ConfigDefaults::auth_roles();
             }
-            config.auth_roles = Arc::new(roles);
+        });
+        try_test_config(storage.clone(), dir, &Opts { port, testbed: cfg.testbed, pre_process: Some(pre), ..Default::default() })
+    }
+
+    /// Starts the daemon from the configuration of the case. `Err`: krill refuses the configuration or the
+    /// daemon does not come up (what it says is for the log only).
+    fn try_start(cfg: &CaseCfg, tcp: bool, tag: &str) -> Result<Instance, String> {
+        let scratch = Scratch::new(&format!("http-{tag}"));
+        let sock = scratch.path().join("k.sock");
+        let storage = StorageUri::from_str(&format!(
+            "memory://http{}x{}x{}",
+            std::process::id(),
+            tag,
+            std::time::SystemTime::now().duration_since(std::time::UNIX_EPOCH).unwrap().as_nanos()
+        ))
+        .unwrap();
+        let mut last = String::new();
+        for attempt in 0..5 {
+            let port = if tcp { free_port() } else { 0 };
+            let mut config = Instance::build_config(cfg, &storage, scratch.path(), &sock, port)?;
             if std::env::var("KHTTP_LOG").is_ok() {
                 config.log_level = log::LevelFilter::Info;
                 let _ = config.init_logging();
             }
             let (rtx, rrx) = tokio::sync::oneshot::channel();
             let (etx, erx) = tokio::sync::oneshot::channel();
-            let jh = std::thread::spawn(move || {
-                if let Err(e) = krill::daemon::start::start_krill_daemon(config, Some(rtx), Some(erx)) {
-                    eprintln!("krill daemon did not start: {e}");
-                }
+            let jh = std::thread::spawn(move || -> Result<(), String> {
+                krill::daemon::start::start_krill_daemon(config, Some(rtx), Some(erx)).map_err(|e| e.to_string())
             });
             if rrx.blocking_recv().is_err() {
-                let _ = jh.join();
+                let why = match jh.join() {
+                    Ok(Ok(())) => "exited without a message".to_string(),
+                    Ok(Err(e)) => e,
+                    Err(_) => "panicked".to_string(),
+                };
                 let panics: Vec<String> = PANICS.lock().map(|p| p.clone()).unwrap_or_default();
-                eprintln!("daemon start attempt {attempt} failed (port {port}; panics recorded: {panics:?}); retrying");
+                last = format!("{why} (port {port}; panics recorded: {panics:?})");
+                if !tcp {
+                    // no port is involved: the configuration is refused
+                    return Err(last);
+                }
+                eprintln!("daemon start attempt {attempt} failed: {last}; retrying");
                 continue;
             }
             let inst = Instance {
@@ -684,14 +816,16 @@ impl Instance {
                 admin: cfg.admin.clone(),
                 testbed: cfg.testbed,
                 exit: Some(etx),
-                join: Some(jh),
+                join: Some(std::thread::spawn(move || {
+                    let _ = jh.join();
+                })),
                 _scratch: scratch,
             };
             inst.wait_ready();
             let _ = std::fs::set_permissions(&sock, std::os::unix::fs::PermissionsExt::from_mode(0o777));
-            return inst;
+            return Ok(inst);
         }
-        panic!("could not start the krill daemon");
+        Err(last)
     }
 
     fn wait_ready(&self) {
@@ -1245,6 +1379,8 @@ impl<'a> Runner<'a> {
             Some("cfg") | Some("role") | Some("user") | Some("unix") | Some("norm") => {
                 self.out.push(op.to_string());
             }
+            // the daemon of this case is running (a refused start ends the case before it gets here)
+            Some("start") => self.out.push("start => start=ok".to_string()),
             Some("foreign") => {
                 let key: u64 = kv(&w, "key").and_then(|k| k.parse().ok()).unwrap_or(99);
                 let user = unhex(kv(&w, "user").unwrap_or("-"));
@@ -1439,6 +1575,10 @@ fn run_case(inst: &Instance, rows: &[Row], cfg: &CaseCfg, ops: &[String], peer: 
         nreq: 0,
         token_role: HashMap::new(),
     };
+    if cfg.roles_builtin {
+        // the harness's own guess who a request acts as needs the built-in roles by name
+        r.cfg.roles.extend(builtin_role_defs());
+    }
     if check_effects {
         r.digest = Some(inst.digest());
     }
@@ -1448,7 +1588,35 @@ fn run_case(inst: &Instance, rows: &[Row], cfg: &CaseCfg, ops: &[String], peer: 
     r.finish()
 }
 
+/// A case with a daemon of its own, started from exactly the configuration of the case. With a `start`
+/// op a refused start is an observation (`start => start=refused`, nothing follows); without one the
+/// daemon has to come up.
+fn run_own_instance(rows: &[Row], cfg: &CaseCfg, ops: &[String], peer: &str, tag: &str) -> Vec<String> {
+    let has_start = ops.iter().any(|o| o.trim() == "start");
+    let tcp = ops.iter().any(|o| o.contains(" tr=tcp"));
+    match Instance::try_start(cfg, tcp, tag) {
+        Ok(inst) => {
+            let mut all = cfg.lines();
+            all.extend(ops.iter().cloned());
+            let lines = run_case(&inst, rows, cfg, &all, peer, true);
+            inst.stop();
+            lines
+        }
+        Err(e) if has_start => {
+            eprintln!("[http] case {tag}: the daemon does not start: {e}");
+            let mut lines = cfg.lines();
+            lines.extend(ops.iter().filter(|o| o.starts_with("norm ")).cloned());
+            lines.push("start => start=refused".to_string());
+            lines
+        }
+        Err(e) => panic!("could not start the krill daemon: {e}"),
+    }
+}
+
 // ------------------------------------------------------------------ generation
+
+/// `Plan::inst` of a case that is run in a daemon of its own.
+const OWN_INSTANCE: usize = usize::MAX;
 
 struct Plan {
     inst: usize,
@@ -1705,7 +1873,7 @@ fn gen_plans(seed: u64, tier: &str, rows: &[Row], peer: &str) -> (Vec<(CaseCfg, 
     hash_users.push(UserDef { name: "h-copy".into(), role: "admin".into(), hpw: "pw-gina".into(), hname: "gina".into(), salt: 950, hsalt: None, stored: None });
 
     // ---- instance 0: testbed on, peer unmapped, TCP too
-    let mut cfg0 = CaseCfg { admin_only: false, admin: admin.clone(), testbed: true, key: 1, roles: roles.clone(), users: users.clone(), unix: Vec::new() };
+    let mut cfg0 = CaseCfg { admin_only: false, admin: admin.clone(), testbed: true, key: 1, roles: roles.clone(), users: users.clone(), unix: Vec::new(), ..Default::default() };
     cfg0.users.extend(extra_users.iter().cloned());
     cfg0.users.extend(hash_users.iter().cloned());
     let sub = |cfg: &CaseCfg, names: &[&str]| -> CaseCfg {
@@ -1760,6 +1928,7 @@ fn gen_plans(seed: u64, tier: &str, rows: &[Row], peer: &str) -> (Vec<(CaseCfg, 
         roles: roles.iter().filter(|r| r.name == peer_role || r.name == other_role || r.name == "admin").cloned().collect(),
         users: users.iter().filter(|u| u.role == peer_role || u.role == other_role || u.role == "admin").cloned().collect(),
         unix: vec![(peer.to_string(), peer_role.clone())],
+        ..Default::default()
     };
     for (tag, auth) in [
         ("peer", "none".to_string()),
@@ -1786,6 +1955,9 @@ fn gen_plans(seed: u64, tier: &str, rows: &[Row], peer: &str) -> (Vec<(CaseCfg, 
         roles: roles.iter().filter(|r| r.name == "readonly" || r.name == "admin").cloned().collect(),
         users: Vec::new(),
         unix: vec![(peer.to_string(), "readonly".into())],
+        // this one is written out as a configuration file and loaded by krill's own loader
+        toml: true,
+        ..Default::default()
     };
     for (tag, auth) in [
         ("peer", "none".to_string()),
@@ -2099,6 +2271,86 @@ fn gen_plans(seed: u64, tier: &str, rows: &[Row], peer: &str) -> (Vec<(CaseCfg, 
         }
         plans.push(Plan { inst, id: format!("s{seed}-c20-mutations-{}-{role}", if inst == 0 { "unmapped" } else { "mapped" }), cfg: c, ops });
     }
+    // ---- configuration files (C20: every user/role configuration): each case is a configuration FILE
+    // loaded by krill's own loader and started in a daemon of its own. (a) no `[auth_roles]`: the built-in
+    // roles; (b) own roles that shadow built-in names with fewer permissions; (c) own roles that omit
+    // built-in names which users, `[unix_users]` or the default `unix_users` (root = "admin") refer to.
+    // `start` observes whether the daemon accepts the configuration at all; where it does, every user logs
+    // in and its token is used on the sample rows (the role must be the CONFIGURED role of that name).
+    {
+        let conf_role = |name: &str, ps: &[&str]| {
+            let s: Vec<String> = ps.iter().map(|p| p.to_string()).collect();
+            RoleDef { name: name.into(), none: s.clone(), any: s, res: Vec::new() }
+        };
+        let cu = |name: &str, role: &str, salt: u64| UserDef { name: name.into(), role: role.into(), hpw: format!("pw-{name}"), hname: name.into(), salt, ..Default::default() };
+        let pool = ["admin", "readwrite", "readonly", "operator", "auditor"];
+        let all_users: Vec<UserDef> = pool.iter().enumerate().map(|(i, r)| cu(&format!("cf-{r}"), r, 700 + i as u64)).collect();
+        let thin_admin = conf_role("admin", &["Login", "CaList", "CaRead", "CaCreate"]);
+        let thin_readonly = conf_role("readonly", &["Login", "CaList"]);
+        let operator = conf_role("operator", &["Login", "CaList", "CaRead", "CaUpdate", "RoutesRead", "RoutesUpdate", "PubList"]);
+        let auditor = RoleDef { name: "auditor".into(), none: set(&["Login", "CaList", "CaRead", "RoutesRead"]), any: Vec::new(), res: vec![("ca2".into(), set(&["Login", "CaList", "CaRead", "RoutesRead"]))] };
+        let base = CaseCfg { admin_only: false, admin: admin.clone(), testbed: false, key: 40, users: all_users.clone(), toml: true, ..Default::default() };
+        let mut cases: Vec<(String, CaseCfg)> = Vec::new();
+        // (a)
+        cases.push(("builtin".into(), CaseCfg { roles_builtin: true, unix_default: true, ..base.clone() }));
+        cases.push(("builtin-unix-readonly".into(), CaseCfg { roles_builtin: true, unix: vec![(peer.to_string(), "readonly".into())], ..base.clone() }));
+        cases.push(("builtin-unix-undefined".into(), CaseCfg { roles_builtin: true, unix: vec![(peer.to_string(), "operator".into())], ..base.clone() }));
+        // (b)
+        cases.push(("shadow".into(), CaseCfg { roles: vec![thin_admin.clone(), thin_readonly.clone(), operator.clone()], unix_default: true, ..base.clone() }));
+        // (c)
+        cases.push(("omit-default-unix".into(), CaseCfg { roles: vec![operator.clone(), auditor.clone()], unix_default: true, ..base.clone() }));
+        cases.push(("omit-unix-names-builtin".into(), CaseCfg { roles: vec![operator.clone(), auditor.clone()], unix: vec![(peer.to_string(), "readwrite".into())], ..base.clone() }));
+        cases.push(("omit-unix-overridden".into(), CaseCfg { roles: vec![operator.clone(), auditor.clone()], unix: vec![(peer.to_string(), "operator".into())], ..base.clone() }));
+        cases.push(("omit-unix-empty".into(), CaseCfg { roles: vec![operator.clone(), thin_readonly.clone()], ..base.clone() }));
+        // the providers' own start-up conditions
+        cases.push(("no-users".into(), CaseCfg { roles_builtin: true, unix_default: true, users_none: true, users: Vec::new(), ..base.clone() }));
+        cases.push(("admintoken-omit-default-unix".into(), CaseCfg { admin_only: true, roles: vec![operator.clone()], unix_default: true, users_none: true, users: Vec::new(), ..base.clone() }));
+        cases.push(("admintoken-own-roles".into(), CaseCfg { admin_only: true, roles: vec![operator.clone(), thin_admin.clone()], unix_default: true, users_none: true, users: Vec::new(), ..base.clone() }));
+        // seeded: which names the file defines, with which permissions, and what `unix_users` says
+        for k in 0..(if thorough { 30 } else { 4 }) {
+            let mut roles: Vec<RoleDef> = Vec::new();
+            for name in pool {
+                if rng.chance(1, 2) {
+                    let density = *rng.pick(&[2u64, 4, 6]);
+                    let mut ps: Vec<String> = subset(&mut rng, &perms, density);
+                    if rng.chance(4, 5) && !ps.iter().any(|p| p == "Login") {
+                        ps.insert(0, "Login".into());
+                    }
+                    roles.push(RoleDef { name: name.to_string(), none: ps.clone(), any: ps, res: Vec::new() });
+                }
+            }
+            let builtin = roles.is_empty() || rng.chance(1, 5);
+            if builtin {
+                roles.clear();
+            }
+            let (unix_default, unix) = match rng.below(4) {
+                0 | 1 => (true, Vec::new()),
+                2 => (false, vec![(peer.to_string(), rng.pick(&pool).to_string())]),
+                _ => (false, Vec::new()),
+            };
+            cases.push((format!("seeded{k}"), CaseCfg { roles_builtin: builtin, roles, unix_default, unix, ..base.clone() }));
+        }
+        let login = rows.iter().find(|r| r.pattern == "/auth/login" && r.method == "POST").unwrap();
+        let sample = near_rows(rows);
+        for (tag, c) in cases {
+            let mut ops = vec!["start".to_string()];
+            // the peer of the socket, without and with a wrong bearer token
+            for r in &sample {
+                ops.push(row_op(r, "ca2", "unix", "none"));
+            }
+            ops.push(row_op(sample[0], "ca1", "unix", &format!("bearer:txt:{}", hexs(&admin))));
+            ops.push(format!("req {} POST segs=auth/login tr=unix auth=bearer:txt:{} tok=T90", login.idx, hexs(&admin)));
+            for (k, u) in c.users.iter().enumerate() {
+                ops.push(login_op(rows, u, &format!("T{}", k + 1), "unix"));
+                ops.push(format!("req {} POST segs=auth/login tr=unix auth=basic:{}:{} tok=T{}", login.idx, hexs(&u.name), hexs("wrong"), 50 + k));
+                for r in &sample {
+                    ops.push(row_op(r, "ca2", "unix", &format!("bearer:T{}", k + 1)));
+                }
+            }
+            plans.push(Plan { inst: OWN_INSTANCE, id: format!("s{seed}-c20-config-{tag}"), cfg: c, ops });
+        }
+    }
+
     // ---- instance 3 (C20, only as root): several system accounts mapped, the connecting thread's effective
     // uid and gid varied; the identity must be the user of the effective UID, whatever the gid
     let mut insts = vec![(cfg0, true), (cfg1, false), (cfg2, true)];
@@ -2114,6 +2366,7 @@ fn gen_plans(seed: u64, tier: &str, rows: &[Row], peer: &str) -> (Vec<(CaseCfg, 
             roles: roles.iter().filter(|r| ["readonly", "admin", "override", "scoped"].contains(&r.name.as_str())).cloned().collect(),
             users: users.iter().filter(|u| u.role == "readonly").cloned().collect(),
             unix: accounts.iter().filter_map(|(_, n, r)| r.map(|r| (n.clone(), r.to_string()))).collect(),
+            ..Default::default()
         };
         let idrow = rows.iter().find(|r| r.handler == "cas::id_index" && r.method == "POST").unwrap();
         let list = rows.iter().find(|r| r.pattern == "/api/v1/cas" && r.method == "GET").unwrap();
@@ -2621,7 +2874,7 @@ fn exec_fuzz(inst: &Instance, op: &str) -> (String, bool) {
 }
 
 fn pathfuzz_cfg() -> CaseCfg {
-    CaseCfg { admin_only: false, admin: "fuzz-admin-token".into(), testbed: true, key: 16, roles: Vec::new(), users: Vec::new(), unix: Vec::new() }
+    CaseCfg { admin_only: false, admin: "fuzz-admin-token".into(), testbed: true, key: 16, roles: Vec::new(), users: Vec::new(), unix: Vec::new(), ..Default::default() }
 }
 
 // ------------------------------------------------------------------ main
@@ -2685,12 +2938,7 @@ fn main() {
                     rest.push(op.clone());
                 }
             }
-            let tcp = rest.iter().any(|o| o.contains(" tr=tcp"));
-            let mut all_ops = cfg.lines();
-            all_ops.extend(rest);
-            let inst = Instance::start(&cfg, tcp, &format!("r{i}"));
-            let lines = run_case(&inst, &rows, &cfg, &all_ops, &peer, true);
-            inst.stop();
+            let lines = run_own_instance(&rows, &cfg, &rest, &peer, &format!("r{i}"));
             writeln!(out, "case {id}").unwrap();
             for l in lines {
                 writeln!(out, "{l}").unwrap();
@@ -2719,6 +2967,20 @@ fn main() {
                 eprintln!("[http {:6.1}s] case {} done ({} ops)", t0.elapsed().as_secs_f32(), p.id, ops.len());
             }
             inst.stop();
+        }
+        // cases that bring their own configuration file
+        for (n, p) in plans.iter().filter(|p| p.inst == OWN_INSTANCE).enumerate() {
+            if let Some(o) = &only {
+                if !p.id.contains(o.as_str()) {
+                    continue;
+                }
+            }
+            let lines = run_own_instance(&rows, &p.cfg, &p.ops, &peer, &format!("o{n}"));
+            writeln!(out, "case {}", p.id).unwrap();
+            for l in &lines {
+                writeln!(out, "{l}").unwrap();
+            }
+            eprintln!("[http {:6.1}s] case {} done ({} lines)", t0.elapsed().as_secs_f32(), p.id, lines.len());
         }
     }
     out.flush().unwrap();
